@@ -324,6 +324,9 @@ class Run:
         self.findings = [f for f in load_findings().get("known", []) if f.get("property") == prop]
         self.notes: list[str] = []
         self.per_signature: dict[str, int] = {}
+        REPLAYS.mkdir(exist_ok=True)
+        for old in REPLAYS.glob(f"{prop}-*.json"):
+            old.unlink()
 
     # -- reporting --
     def log(self, *a):
